@@ -6,11 +6,11 @@ on a tree without those fixes this check reports the violations with replays."""
 import itertools
 import vlib
 
-PROOFS = ["MgProof.C20.BitsLemmas", "MgProof.C20.SwapLemmas", "MgProof.C20.HexLemmas",
+PROOFS = ["MgProof.Tie.Bits", "MgProof.C20.BitsLemmas", "MgProof.C20.SwapLemmas", "MgProof.C20.HexLemmas",
           "MgProof.C20.StrLemmas", "MgProof.C20.NumLemmas", "MgProof.C20.PathLemmas",
           "MgProof.C20.NormLemmas", "MgProof.C20.NormRef", "MgProof.C20.NormRef2", "MgProof.C20.FloatLemmas",
           "MgProof.C20.Props"]
-GREP = ["MgModel/C20", "MgProof/C20", "MgModel/Common", "Drv/C20.lean"]
+GREP = ["MgProof/Tie", "MgModel/Generated", "MgModel/C20", "MgProof/C20", "MgModel/Common", "Drv/C20.lean"]
 REPO_SRCS = ["muggle/c/base/str.c", "muggle/c/os/path.c", "muggle/c/base/utils.c",
              "muggle/c/encoding/hex.c"]
 
@@ -470,6 +470,7 @@ def main(ctx):
         "a full dump of the exact-size heap buffer; distinct = distinct op lists; non-trivial = some op returns "
         "a non-error non-zero answer")
     ctx.lean_obligations("drv_c20", PROOFS, GREP, leanchecker=["MgProof.C20.Props"])
+    vlib.tie_a_generated(ctx)
     if not getattr(ctx, "driver_ok", False):
         return
     try:
